@@ -458,7 +458,7 @@ func ruleM4b(c *Ctx) {
 func checkTrunkCallers(c *Ctx, m *Module, prefix string) int {
 	n := 0
 	for _, f := range m.funcs() {
-		if f.Pkg == nil || !strings.HasPrefix(f.Pkg.Pkg.Path(), modPath) || strings.HasSuffix(f.Pkg.Pkg.Path(), "/multiplex") && recvNamed(f) != nil && recvNamed(f).Obj().Name() == "mux" {
+		if f.Pkg == nil || !strings.HasPrefix(f.Pkg.Pkg.Path(), modPath) || strings.HasSuffix(f.Pkg.Pkg.Path(), "/multiplex") && recvNamed(f) != nil && tname(recvNamed(f).Obj()) == "mux" {
 			continue
 		}
 		for _, ci := range calls(f) {
